@@ -760,6 +760,8 @@ class TdmsChannel(object):
     def _read_slice(self, start, stop, step):
         if step == 0:
             raise ValueError("Step size cannot be zero")
+        if self._length == 0:
+            return np.empty((0,), dtype=self.dtype)
 
         # Replace None values with defaults
         step = 1 if step is None else step
